@@ -11,6 +11,7 @@ import (
 	"runtime/pprof"
 	"strings"
 	"sync"
+	"sync/atomic"
 	"testing"
 	"time"
 
@@ -84,6 +85,19 @@ var typed map[int]string
 
 func sender(rng *rand.Rand, v6 bool) *net.UDPAddr {
 	port := 1 + rng.IntN(65535)
+	if rng.IntN(4) == 0 {
+		// senders of every kind an address can be: who may send is not the server loop's business
+		if v6 {
+			ips := []string{"ff02::1:2", "ff05::1:3", "::", "::1", "::ffff:10.0.0.1", "::ffff:224.0.0.1", "fe80::ff:fe00:1", "fc00::1", "2001:db8:ffff:ffff:ffff:ffff:ffff:ffff"}
+			a := &net.UDPAddr{IP: net.ParseIP(ips[rng.IntN(len(ips))]), Port: port}
+			if rng.IntN(6) == 0 {
+				a.IP = net.IP{10, 9, 8, 7} // a four-octet address (a dual-stack socket's peer)
+			}
+			return a
+		}
+		ips := []net.IP{{224, 0, 0, 1}, {239, 255, 255, 250}, {255, 255, 255, 255}, {127, 0, 0, 1}, {169, 254, 3, 4}, net.IPv4(172, 16, 5, 6), net.IPv4(224, 0, 0, 252), {0, 0, 0, 1}, {100, 64, 0, 1}}
+		return &net.UDPAddr{IP: append(net.IP{}, ips[rng.IntN(len(ips))]...), Port: port}
+	}
 	if v6 {
 		switch rng.IntN(3) {
 		case 0:
@@ -468,7 +482,8 @@ func runCase(r *mon.Rec, famName string, idx int) {
 		closeSrv = srv.Close
 		go func() { serveErr = srv.Serve(); close(serveDone) }()
 	} else {
-		srv, err := server4.NewServer("", nil, func(c net.PacketConn, peer net.Addr, m *dhcpv4.DHCPv4) {
+		var placeholderCalls atomic.Int64
+		h4 := func(c net.PacketConn, peer net.Addr, m *dhcpv4.DHCPv4) {
 			if m == nil {
 				mu.Lock()
 				nilCalls++
@@ -489,10 +504,26 @@ func runCase(r *mon.Rec, famName string, idx int) {
 				m.HopCount ^= 0xff
 				m.Options.Update(dhcpv4.OptGeneric(dhcpv4.GenericOptionCode(231), []byte{0xee}))
 			})
-		}, append([]server4.ServerOpt{server4.WithConn(conn)}, logOpts4(logCfg)...)...)
+		}
+		// the DHCPv4 server's handler is an exported field: a program may construct the server first and install its
+		// handler afterwards (before serving); the handler in the field is the one that is invoked
+		construct := server4.Handler(h4)
+		late := rng.IntN(3) == 0
+		if late {
+			construct = func(net.PacketConn, net.Addr, *dhcpv4.DHCPv4) { placeholderCalls.Add(1) }
+		}
+		srv, err := server4.NewServer("", nil, construct, append([]server4.ServerOpt{server4.WithConn(conn)}, logOpts4(logCfg)...)...)
 		restoreErr()
 		if err != nil {
 			panic(err)
+		}
+		if late {
+			srv.Handler = h4
+			defer func() {
+				if n := placeholderCalls.Load(); n > 0 {
+					r.Violate("C14:replaced-handler-invoked", fmt.Sprintf("%s: the handler given to NewServer was invoked %d times although Server.Handler had been set to another one before serving", famName, n), rp)
+				}
+			}()
 		}
 		closeSrv = srv.Close
 		go func() { serveErr = srv.Serve(); close(serveDone) }()
